@@ -9,6 +9,10 @@
 //	pclose <k>                   the application closes the k-th accepted peer stream, the peer finishes its
 //	                             side (FIN) and acknowledges everything: the stream is completely closed
 //	nstream <b|u>                application: NewStream / NewSendOnlyStream with an expired context
+//	phalf <k> <r|w|s>            (s: CloseRead before the peer finished: STOP_SENDING, stream stays open)
+//	                             the application closes only the read (r) or only the write (w) direction of the
+//	                             k-th accepted peer stream (the peer finishes / acknowledges its part): the stream
+//	                             counts as closed only once both directions are closed
 //	lclose <k>                   the application closes the k-th stream it opened itself, the peer finishes and
 //	                             acknowledges: a LOCALLY initiated stream is completely closed (must not extend the
 //	                             peer's limit)
@@ -111,8 +115,10 @@ func c21wGen(r *vu.Rng, i int) []string {
 		case x < 78:
 			ops = append(ops, "nstream "+tn[t])
 			locals++
-		case x < 86:
+		case x < 83:
 			ops = append(ops, fmt.Sprintf("lclose %d", r.Intn(locals+1)))
+		case x < 86:
+			ops = append(ops, fmt.Sprintf("phalf %d %s", r.Intn(accepted+1), []string{"r", "w", "s"}[r.Intn(3)]))
 		case x < 94:
 			v := int64(r.Range(0, 12))
 			if r.Chance(1, 10) {
@@ -142,6 +148,8 @@ type c21wCase struct {
 	local  []*Stream // opened by the application, not yet closed
 	maxPn  packetNumber // largest 1-RTT packet number the Conn sent
 	finned map[streamID]bool
+	halfR  map[streamID]bool // application closed the read direction only
+	halfW  map[streamID]bool
 }
 
 func c21wExec(t *testing.T) func(ops []string, o *vu.Out) {
@@ -164,7 +172,7 @@ func c21wExec(t *testing.T) func(ops []string, o *vu.Out) {
 				}
 			}()
 			synctest.Test(t, func(t *testing.T) {
-				x := &c21wCase{t: t, o: o, finned: map[streamID]bool{}}
+				x := &c21wCase{t: t, o: o, finned: map[streamID]bool{}, halfR: map[streamID]bool{}, halfW: map[streamID]bool{}}
 				for _, op := range clean {
 					if abandoned.Load() {
 						return
@@ -386,6 +394,60 @@ func (x *c21wCase) step(op string) string {
 		x.obs = append(x.obs, fmt.Sprintf("closed:%s:%d", c21wTN[ai], s.id.num()))
 		x.o.Stat("wire:closed")
 		s.Close()
+		x.drain()
+		x.ackAll()
+		x.drain()
+	case t[0] == "phalf" && len(t) == 3 && (t[2] == "r" || t[2] == "w" || t[2] == "s"):
+		k := vu.Atoi(t[1])
+		if k < 0 {
+			return bad()
+		}
+		if len(x.open) == 0 {
+			x.obs = append(x.obs, "-")
+			break
+		}
+		k %= len(x.open)
+		s := x.open[k]
+		if t[2] == "s" {
+			// the application stops reading while the peer has NOT finished its direction
+			// (STOP_SENDING goes out): the stream is not closed by this
+			s.CloseRead()
+			x.o.Stat("wire:stop-sending")
+			x.drain()
+			x.ackAll()
+			x.drain()
+			break
+		}
+		uni := s.id.streamType() == uniStream
+		if t[2] == "w" && uni || t[2] == "r" && x.halfR[s.id] || t[2] == "w" && x.halfW[s.id] {
+			x.obs = append(x.obs, "-")
+			break
+		}
+		if t[2] == "r" {
+			x.halfR[s.id] = true
+		} else {
+			x.halfW[s.id] = true
+		}
+		if x.halfR[s.id] && (uni || x.halfW[s.id]) {
+			// second half: from here on the stream may be counted as closed
+			x.open = append(x.open[:k], x.open[k+1:]...)
+			ai := c21wTI(s.id.streamType())
+			x.closed[ai]++
+			x.obs = append(x.obs, fmt.Sprintf("closed:%s:%d", c21wTN[ai], s.id.num()))
+			x.o.Stat("wire:closed")
+		} else {
+			x.o.Stat("wire:half-closed")
+		}
+		if t[2] == "r" {
+			if !x.finned[s.id] {
+				x.tc.writeFrames(packetType1RTT, debugFrameStream{id: s.id, fin: true})
+				x.finned[s.id] = true
+				x.drain()
+			}
+			s.CloseRead()
+		} else {
+			s.CloseWrite()
+		}
 		x.drain()
 		x.ackAll()
 		x.drain()
